@@ -193,3 +193,82 @@ def shipped_files(U, file):
             em = d.get_encoded_method_descriptor(me[0], me[1], me[2])
             U.ensures("descriptor lookup returns the declared method", em is not None and (em.get_class_name(), em.get_name(), em.get_descriptor()) == me[:3])
     U.ensures("lookup of an undeclared method returns None", d.get_encoded_method_descriptor("Lno/Such;", "x", "()V") is None)
+
+
+class _Tab:
+    def __init__(self, d):
+        self.d = d
+
+    def get(self, idx):
+        return self.d.get(idx, -1)
+
+
+class _Rec:
+    """ClassManager stand-in whose resolvers return tagged tuples"""
+
+    def __init__(self):
+        self.log = []
+
+    def get_type(self, i):
+        return ("type", i)
+
+    def get_string(self, i):
+        return ("string", i)
+
+    def get_proto(self, i):
+        return [("params", i), ("ret", i)]
+
+    def get_type_list(self, off):
+        return ("type_list", off)
+
+    def get_class_data_item(self, off):
+        return ("class_data", off)
+
+    def get_annotations_directory_item(self, off):
+        return ("annotations", off)
+
+    def get_encoded_array_item(self, off):
+        self.log.append(("encoded_array", off))
+        return None
+
+
+@unit("C05", covers=[(DEX, "ClassManager.get_type"), (DEX, "ClassManager.get_type_ref"), (DEX, "ClassManager.get_field"),
+                     (DEX, "ClassManager.get_method"), (DEX, "FieldIdItem.reload"), (DEX, "MethodIdItem.reload"), (DEX, "ClassDefItem.reload")],
+      samples=30)
+def index_chains(U):
+    """each name/descriptor is obtained by following exactly the index chain the DEX format prescribes"""
+    m = U.mod(DEX)
+    T = m.TypeMapItem
+    cm = object.__new__(m.ClassManager)
+    cm.hook_strings = {}
+    cm.get_raw_string = lambda i: ("raw_string", i)
+    tidx = U.choice("tidx", [0, 3, 7])
+    sidx_c = U.choice("string_idx", [0, 1, 77, 65535, 1 << 20])
+    setattr(cm, "_ClassManager__manage_item", {T.TYPE_ID_ITEM: _Tab({tidx: sidx_c})})
+    U.ensures("type name = string_ids[type_ids[idx].descriptor_idx]", cm.get_type(tidx) == ("raw_string", sidx_c))
+    U.ensures("unknown type index is reported, not mis-resolved", cm.get_type(tidx + 1) == "AG:ITI: invalid type")
+    rec = _Rec()
+    ci, ti, ni = U.choice("c", [0, 5]), U.choice("t", [1, 6]), U.choice("n", [2, 9])
+    f = object.__new__(m.FieldIdItem)
+    f.CM, f.class_idx, f.type_idx, f.name_idx = rec, ci, ti, ni
+    f.reload()
+    U.ensures("field id: class = type(class_idx), type = type(type_idx), name = string(name_idx)",
+              (f.class_idx_value, f.type_idx_value, f.name_idx_value) == (("type", ci), ("type", ti), ("string", ni)))
+    me = object.__new__(m.MethodIdItem)
+    me.CM, me.class_idx, me.proto_idx, me.name_idx = rec, ci, ti, ni
+    me.reload()
+    U.ensures("method id: class = type(class_idx), proto = proto(proto_idx), name = string(name_idx)",
+              (me.class_idx_value, me.proto_idx_value, me.name_idx_value) == (("type", ci), [("params", ti), ("ret", ti)], ("string", ni)))
+    cd = object.__new__(m.ClassDefItem)
+    cd.CM = rec
+    cd.class_idx, cd.superclass_idx, cd.interfaces_off = ci, ti, ni
+    cd.class_data_off = U.choice("cdo", [0, 64])
+    cd.annotations_off = U.choice("ao", [0, 96])
+    cd.static_values_off = 0
+    cd.class_data_item = cd.annotations_directory_item = cd.static_values = None
+    cd.reload()
+    U.ensures("class def: name, superclass and interfaces through their own indices",
+              (cd.name, cd.sname, cd.interfaces) == (("type", ci), ("type", ti), ("type_list", ni)))
+    U.ensures("class data / annotations are attached iff their offsets are non-zero",
+              cd.class_data_item == (("class_data", 64) if cd.class_data_off else None) and
+              cd.annotations_directory_item == (("annotations", 96) if cd.annotations_off else None))
